@@ -961,10 +961,10 @@ class XMLSchemaBase(XsdValidator, ElementPathMixin[Union[SchemaType, XsdElement]
             return self.maps.elements.get(tag)
         elif path[-1] == '*':
             xsd_element = self.find(path[:-1] + tag, namespaces)
-            if isinstance(xsd_element, XsdElement):
+            if isinstance(xsd_element, XsdElement) and xsd_element.name == tag:
                 return xsd_element
             else:
-                return self.maps.elements.get(tag)
+                return self.maps.elements.get(tag)  # a global element or a substitute
         else:
             xsd_element = self.find(path, namespaces)
             if not isinstance(xsd_element, XsdElement):
